@@ -2,30 +2,41 @@
 # usage: ./run.sh <Cxx> quick|thorough      — rebuild against /repo's working tree, run one check
 #        ./run.sh <Cxx> replay <file>       — re-run one recorded case
 #        ./run.sh setup                     — pre-warm build caches
+# VERIF_REPO / VERIF_OUT (tooling only, see tools/seed_run.sh) redirect the tree under test and the output directory.
 set -u
 cd "$(dirname "$0")"
 export GOFLAGS=-mod=mod GOPROXY=off GOSUMDB=off GOTOOLCHAIN=local
-mkdir -p bin .work evidence replays
-cp -f /repo/go.sum go.sum 2>/dev/null
+REPO="${VERIF_REPO:-/repo}"
+OUT="${VERIF_OUT:-/verif}"
+mkdir -p "$OUT/bin" "$OUT/.work" "$OUT/evidence" "$OUT/replays"
+MODFLAG=""
+if [ "$REPO" != "/repo" ]; then
+  sed "s#=> /repo#=> $REPO#" go.mod > "$OUT/.work/alt.mod"
+  cp -f "$REPO/go.sum" "$OUT/.work/alt.sum"
+  MODFLAG="-modfile=$OUT/.work/alt.mod"
+else
+  cp -f /repo/go.sum go.sum 2>/dev/null
+fi
 build() {
-  go build -tags verif -o bin/verif ./cmd/verif || { echo "ENGINE-ERROR: build failed"; exit 2; }
+  go build $MODFLAG -tags verif -o "$OUT/bin/verif" ./cmd/verif || { echo "ENGINE-ERROR: build failed"; exit 2; }
+}
+build_c10() {
+  # C10 needs two more binaries, both rebuilt from the tree under test:
+  #  - the op bodies under the race detector (free-running),
+  #  - the map-iteration-order explorer, built with -overlay against rewritten copies of geom's sources.
+  go build $MODFLAG -race -tags verif -o "$OUT/bin/verifrace" ./cmd/verifrace || { echo "ENGINE-ERROR: race build failed"; exit 2; }
+  go build $MODFLAG -o "$OUT/bin/envxgen" ./cmd/envxgen || { echo "ENGINE-ERROR: envxgen build failed"; exit 2; }
+  rm -rf "$OUT/.work/envx" && mkdir -p "$OUT/.work/envx"
+  (cd "$REPO" && VERIF_REPO="$REPO" "$OUT/bin/envxgen" "$OUT/.work/envx" /verif/envx/runtime.go.src) || exit 2
+  go build $MODFLAG -overlay "$OUT/.work/envx/overlay.json" -tags "verif envx" -o "$OUT/bin/verifenvx" ./cmd/verifenvx || { echo "ENGINE-ERROR: explorer build failed"; exit 2; }
 }
 if [ "${1:-}" = "setup" ]; then
   build
-  # pre-warm the race and overlay build caches
-  go build -race -tags verif -o bin/verifrace ./cmd/verifrace
-  go build -o bin/envxgen ./cmd/envxgen && rm -rf .work/envx && mkdir -p .work/envx && (cd /repo && /verif/bin/envxgen /verif/.work/envx /verif/envx/runtime.go.src) && go build -overlay .work/envx/overlay.json -tags "verif envx" -o bin/verifenvx ./cmd/verifenvx
-  exec bin/verif setup
+  build_c10   # pre-warms the race and overlay build caches
+  exec "$OUT/bin/verif" setup
 fi
 build
 if [ "${1:-}" = "C10" ] && [ "${2:-quick}" != "replay" ]; then
-  # C10 needs two more binaries, both rebuilt from /repo's working tree:
-  #  - the op bodies under the race detector (free-running),
-  #  - the map-iteration-order explorer, built with -overlay against rewritten copies of geom's sources.
-  go build -race -tags verif -o bin/verifrace ./cmd/verifrace || { echo "ENGINE-ERROR: race build failed"; exit 2; }
-  go build -o bin/envxgen ./cmd/envxgen || { echo "ENGINE-ERROR: envxgen build failed"; exit 2; }
-  rm -rf .work/envx && mkdir -p .work/envx
-  (cd /repo && /verif/bin/envxgen /verif/.work/envx /verif/envx/runtime.go.src) || exit 2
-  go build -overlay .work/envx/overlay.json -tags "verif envx" -o bin/verifenvx ./cmd/verifenvx || { echo "ENGINE-ERROR: explorer build failed"; exit 2; }
+  build_c10
 fi
-exec bin/verif "$@"
+exec "$OUT/bin/verif" "$@"
